@@ -76,7 +76,8 @@ package domain
 
 //@ func (idx *index) insert(ctx context.Context, p pointer, persist bool) (err error)
 //@   requires WF(idx.mu.pointers) && 0 <= p.Start && p.Start < p.End
-//@   requires 0 <= idx.persistHead
+//@   requires 0 <= idx.persistHead && idx.persistHead <= len(idx.mu.pointers)
+//@   requires idx.indexPersist != nil && idx.indexPersist.p != nil && idx.indexPersist.idx == idx
 //@   ensures  WF(idx.mu.pointers)
 //@   ensures  sameSeq(idx.mu.pointers, old(idx.mu.pointers)) || (exists k int :: insertedAt(idx.mu.pointers, old(idx.mu.pointers), k, p) && idx.persistHead <= k)
 //@   ensures  !persist && err == nil ==> !sameSeq(idx.mu.pointers, old(idx.mu.pointers))
@@ -97,7 +98,8 @@ package domain
 //@   requires WF(idx.mu.pointers) && 0 <= p.Start && p.Start < p.End
 //@   # caller protocol (Writer.commit): the domain being updated was inserted by this writer
 //@   requires len(idx.mu.pointers) == 0 || (exists k int :: 0 <= k && k < len(idx.mu.pointers) && idx.mu.pointers[k].Start == p.Start)
-//@   requires 0 <= idx.persistHead
+//@   requires 0 <= idx.persistHead && idx.persistHead <= len(idx.mu.pointers)
+//@   requires idx.indexPersist != nil && idx.indexPersist.p != nil && idx.indexPersist.idx == idx
 //@   ensures  WF(idx.mu.pointers)
 //@   ensures  sameSeq(idx.mu.pointers, old(idx.mu.pointers)) || (exists k int :: replacedAt(idx.mu.pointers, old(idx.mu.pointers), k, p) && old(idx.mu.pointers)[k].Start == p.Start && idx.persistHead <= k)
 //@   ensures  !persist && err == nil ==> (exists k int :: replacedAt(idx.mu.pointers, old(idx.mu.pointers), k, p))
